@@ -514,7 +514,7 @@ COMMIT_GROUPS = {
     "sched-queue": (r"^simulation::|^<simulation::", r"PriorityQueue::(insert|pull)$|SyncCell::write$|Simulation::run$|Clock::synchronize$|spawn_and_forget$|Executor::run$",
                     "scheduler queue, time cell, clock and executor hand-over in the simulation front end"),
     "time-cell": (r"^util::sync_cell::", r"tearable_store$|Atomic\w*::store$|^std::sync::atomic::fence$", "seqlock write protocol"),
-    "sinks": (r"^<ports::sink::|^ports::sink::|^<ports::output::sender::\w*EventSink", r"EventSinkWriter::write$|VecDeque::(push_back|pop_front|drain)$|Option::take$|Mutex::(try_lock|lock)$",
+    "sinks": (r"^<ports::sink::|^ports::sink::|^<ports::output::sender::\w*EventSink", r"EventSinkWriter::write$|VecDeque::(push_back|pop_front|drain)$|Option::take$|^std::mem::take$|Mutex::(try_lock|lock)$",
               "sink writes"),
     "throw": (r"^ports::|^<ports::|^executor::mt_executor::run_local_worker", r"unwrap_or_throw$|PoolManager::register_panic$", "error reporting"),
     "registration": (r"^simulation::add_model$|^simulation::sim_init::|^model::context::BuildContext", r"spawn_and_forget$|Vec::push$|^simulation::add_model$",
